@@ -255,11 +255,87 @@ def run(tier):
         if probs:
             chk.violation('%s:%s:reported-but-process-lingers' % (probs[0], kind_of(sp['cls'])), '%s whose child has reported and lingers, timed wait %.1f s: %s; observations %s' % (
                 sp['cls'], sp['wait'], ', '.join(probs), short([(o['is_alive'], o['user_state']['repr'], o['has_error']) for o in obs], 200)), {'spec': sp, 'obs': obs, 'final': fin})
+    # the final state is slow to arrive: polling with short timed waits and is_alive()
+    sjobs = [dict(cls=cls, wait=wt) for cls in ('StatefulProcessWorker', 'StatefulRemoteWorker', 'StatefulPersistentProcessWorker', 'StatefulPersistentRemoteWorker') for wt in ((0.05, 0.3) if not thorough else (0.02, 0.05, 0.3, 0.6))]
+
+    def sone(ij):
+        i, sp = ij
+        res = run_case('checks.c16:slowstate_case', sp, os.path.join(wd, 's%d' % i), timeout=180)
+        cleanup(res['dir'])
+        return sp, res
+
+    for sp, res in pmap(sone, list(enumerate(sjobs)), 6):
+        chk.case((sp['cls'], 'slow-state', sp['wait']))
+        chk.count('slow_state_cases')
+        ev = [e for e in res['events'] if e.get('ev') == 'slowstate']
+        fin = [e for e in res['events'] if e.get('ev') == 'slowstate_final']
+        if not ev or not fin:
+            chk.inconclusive('slow-state case incomplete', {'spec': sp, 'stderr': res['stderr'][-400:]})
+            continue
+        want = 'SlowBox(7)'
+        probs = []
+        if ev[0]['user_state']['repr'] != want:
+            probs.append('state-stale-when-read-first-after-death')
+        elif fin[0]['user_state']['repr'] != want:
+            probs.append('state-wrong-after-death')
+        if probs:
+            chk.violation('%s:%s:final-state-slow-to-arrive' % (probs[0], kind_of(sp['cls'])), '%s, final state needs 0.8 s to be rebuilt, polled with wait(%.2f)/is_alive(): %s; polls %s, state read %s' % (
+                sp['cls'], sp['wait'], ', '.join(probs), ev[0]['polls'], ev[0]['user_state']['repr']), {'spec': sp, 'events': ev + fin})
     cleanup(wd)
     chk.assumptions = ['thread kinds are exempt from the "parent sees the initial value while alive" half (shared memory, documented)',
                        'terminate landings inside the reporting code itself are left to C01/C03 (the statement says "in any way that lets it report")',
                        'values are compared through repr()']
     return chk.finish(min_distinct=30)
+
+
+def slowstate_case(spec, log):
+    """The final state takes a while to be rebuilt in the parent: a short timed wait gives up, and whatever then says the
+    worker is dead must be followed by the final state."""
+    import logging
+    import time
+    logging.disable(logging.CRITICAL)
+    from vlib import vtargets
+    from vlib.case import Bounded, HANG, Raised
+    from vlib.wcase import get_class, enc
+    bounded = Bounded(log)
+    cls, pers = get_class(spec['cls'])
+    server = None
+    kw = {}
+    if 'Remote' in spec['cls']:
+        from pyworkers.remote_server import spawn_server
+        server = spawn_server(('127.0.0.1', 0))
+        kw['host'] = server.addr
+    try:
+        values = [1, {'__slowbox__': 7}]
+        w = cls(vtargets.ret_value, args=([] if pers else [None, values, 'return']), init_state='init', **kw)
+        if pers:
+            w.enqueue(None, values, 'return')
+            w.close()
+        time.sleep(0.3)
+        t0 = time.monotonic()
+        seen = []
+        while time.monotonic() - t0 < 10:
+            r = bounded('timed_wait', lambda: w.wait(spec['wait']), 30)
+            alive = w.is_alive()
+            seen.append((r if isinstance(r, bool) else repr(r), alive))
+            if r is True or alive is False:
+                break
+        log.ev('slowstate', polls=seen[-6:], n_polls=len(seen), user_state=enc(w.user_state), has_error=w.has_error)
+        r = bounded('wait', lambda: w.wait(20), 40)
+        log.ev('slowstate_final', dead=(r is True), user_state=enc(w.user_state))
+        if pers and spec.get('restart'):
+            rr = bounded('restart', lambda: w.restart(timeout=5), 60)
+            w.enqueue(None, [], 'return')
+            v = bounded('next_result', lambda: w.next_result(), 30)
+            log.ev('slowstate_restart', seen_by_next=(v[1] if isinstance(v, list) and len(v) == 3 else repr(getattr(v, 'exc', v))))
+            w.wait(10)
+        return {'ok': True}
+    finally:
+        if server is not None:
+            try:
+                server.terminate(timeout=1, force=True)
+            except BaseException:  # noqa
+                pass
 
 
 def linger_case(spec, log):
